@@ -50,7 +50,15 @@ def gen_type(rng, npk, depth, allow_iface_lit):
             else:
                 fields.append((i, False)); kids.append(gen_type(rng, npk, depth - 1, allow_iface_lit))
         return ("struct", fields, kids)
-    if r < 96 or not allow_iface_lit:
+    if allow_iface_lit == "methods" and r >= 94:
+        ms = sorted(rng.choice([[0], [1], [0, 2], [1, 3], [0, 1, 2]]))
+        sigs = []
+        for _ in ms:
+            np_ = rng.randint(0, 2)
+            nr = rng.randint(0, 1)
+            sigs.append(("func", np_, [gen_type(rng, npk, depth - 2, False) for _ in range(np_ + nr)]))
+        return ("iface", ms, sigs)
+    if r < 96 or not allow_iface_lit or allow_iface_lit == "methods":
         return ("ifaceEmpty",)
     return ("ifaceLit",)
 
@@ -81,6 +89,8 @@ def sexpr(t):
         return "ie"
     if k == "ifaceLit":
         return "il"
+    if k == "iface":
+        return "( i %s %s)" % (",".join(map(str, t[1])), "".join(sexpr(a) + " " for a in t[2]))
     raise ValueError(k)
 
 def has(t, kind):
@@ -99,6 +109,18 @@ def gen_line(rng):
     t = gen_type(rng, npk, rng.randint(1, 4), rng.chance(0.15))
     line = "T %s | %s | %s" % ("-" if cur is None else cur, " ".join(names), sexpr(t))
     return line, dict(cur=cur, names=names, type=t)
+
+PRE_NAMES = ["store", "store0", "cache", "cache0", "api", "v3", "util", "store1", "app", "fmt", "x", "store00"]
+
+def gen_line_g(rng):
+    """a `G` line: createASTTypeExpr (generator side) with names already registered in the VarPool"""
+    npk = rng.randint(1, 6)
+    names = [rng.choice(PKG_NAMES) for _ in range(npk)]
+    cur = rng.randint(0, npk - 1)
+    pre = [rng.choice(PRE_NAMES) for _ in range(rng.randint(0, 4))]
+    t = gen_type(rng, npk, rng.randint(1, 4), "methods")
+    line = "G %d | %s | %s | %s" % (cur, " ".join(names), " ".join(pre), sexpr(t))
+    return line, dict(cur=cur, names=names, pre=pre, type=t)
 
 # ---- reading an answer back
 
@@ -159,6 +181,14 @@ class _P:
             return ("struct", fs)
         if self.eat("interface{}"):
             return ("ifaceEmpty",)
+        if self.eat("interface{"):
+            ms = []
+            while not self.eat("}"):
+                if ms:
+                    self.need(";")
+                n = self.ident(); self.need(" ")
+                ms.append((n, self.expr()))
+            return ("iface", ms)
         m = re.compile(r"\[(\d+)\]").match(self.s, self.i)
         if m:
             self.i = m.end()
@@ -233,6 +263,10 @@ def denotes(e, cur, table):
             return ("struct", fields, kids)
         if k == "ifaceEmpty":
             return ("ifaceEmpty",)
+        if k == "iface":
+            if not all(re.match(r"M\d+$", n) for n, _ in e[1]):
+                return None
+            return ("iface", [int(n[1:]) for n, _ in e[1]], [go(t) for _, t in e[1]])
         return None
     return go(e)
 
@@ -251,6 +285,8 @@ def canon(t):
         return ("func", t[1], [canon(a) for a in t[2]])
     if k == "struct":
         return ("struct", [True if e else n for n, e in t[1]], [canon(a) for a in t[2]])
+    if k == "iface":
+        return ("iface", list(t[1]), [canon(a) for a in t[2]])
     return t
 
 def quals(e):
@@ -267,9 +303,9 @@ def quals(e):
     go(e)
     return out
 
-def judge(meta, ans):
+def judge(meta, ans, reserved=()):
     """None, or what is wrong with the implementation's answer for this type (reference judgement)"""
-    if not ans.startswith("T "):
+    if not ans.startswith(("T ", "G ")):
         return "no answer (%s)" % ans[:60]
     try:
         e, table = parse_answer(ans)
@@ -281,6 +317,9 @@ def judge(meta, ans):
     unused = sorted(set(names) - quals(e))
     if unused:
         return "imports not used by the expression: %s" % unused
+    taken = sorted(n for n in names if n in meta.get("pre", ()) or n in reserved)
+    if taken:
+        return "an import is given a local name that is already in use: %s" % taken
     if meta["cur"] is None or has(meta["type"], "ifaceLit"):
         return None          # nothing is qualified without a current package; interface literals are spelled `any` (pinned by typeconv_test.go)
     got = denotes(e, meta["cur"], table)
